@@ -155,6 +155,23 @@ EXOTIC = [
 ]
 
 
+# Ambiguities whose derivations TIE on sort_key (same rule, different split point; equal priorities; ties inside
+# nested and intermediate nodes): the tie is broken by the insertion order of the packed nodes, i.e. by the order in
+# which the engine processed its items - which must not depend on the hash seed.  Always swept, whatever VERIF_SEED.
+TIE_CORPUS = [
+    ('start: a a\na: X | X X\nX: "x"\n', ['xxx', 'xxxx']),
+    ('start: a a a\na: X | X X\nX: "x"\n', ['xxxx', 'xxxxx']),
+    ('start: e\ne: e e | X\nX: "x"\n', ['xxx', 'xxxx']),
+    ('start: e\ne.2: e P e | N\nN: "n"\nP: "+"\n', ['n+n+n', 'n+n+n+n']),
+    ('start: b b\nb: a a\na: X | X X | X X X\nX: "x"\n', ['xxxxxx', 'xxxxxxx']),
+    ('start: a b\na.1: X | X Y\nb.1: Y Z | Z\nX: "x"\nY: "y"\nZ: "z"\n', ['xyz']),
+    ('start: a a\na.3: X | Y | X Y | Y X\nX.2: "x"\nY.2: "y"\n', ['xyx', 'xyxy', 'yxyx']),
+    ('start: l l\nl: i+\ni: X\nX: "x"\n', ['xxx', 'xxxx']),
+    ('start: (a | b) (a | b)\na.1: X | X X\nb.1: X | X X\nX: "x"\n', ['xxx']),
+    ('start: a [a] a\na: X | X X\nX: "x"\n', ['xxx', 'xxxx']),
+]
+
+
 def correspond(ctx):
     from lark.exceptions import LarkError
     rng = ctx.rng
@@ -288,20 +305,46 @@ def correspond(ctx):
         ctx.count('determinism-in-process', nontrivial=False)
         if a != shown or b != shown:
             ctx.violation('determinism:in-process', w, True, 'repeated parse returned %r / %r, first %r' % (a, b, shown))
-    seeds = list(range(3)) if not ctx.thorough() else list(range(25))
-    payload = [dict(g=w['g'], amb='resolve', lexer=w['lexer'], prio=w['mode'], text=w['text']) for w, _ in det]
+    # hash seeds: at least 4 in quick; the fixed tie corpus makes the sweep independent of VERIF_SEED
+    seeds = list(range(4)) if not ctx.thorough() else list(range(25))
+    corpus = [(dict(g=g, text=t, lexer=lx, mode=mode), None)
+              for g, texts in TIE_CORPUS for t in texts for lx in ('basic', 'dynamic') for mode in ('normal', 'invert')]
+    sweep = corpus + det
+    payload = []
+    for w, _ in sweep:
+        payload.append(dict(g=w['g'], amb='resolve', lexer=w['lexer'], prio=w['mode'], text=w['text']))
+        payload.append(dict(g=w['g'], amb='order', lexer=w['lexer'], prio=w['mode'], text=w['text']))
     from concurrent.futures import ThreadPoolExecutor
     with ThreadPoolExecutor(max_workers=4) as ex:
         outs = list(ex.map(lambda sd: fc.run_in_subprocess(payload, sd), seeds))
+    ref = {}
     for sd, (res, err) in zip(seeds, outs):
         if res is None:
             ctx.violation('determinism:subprocess', {'no_longer_checks': 'hash seed sweep', 'detail': err}, False, err)
             continue
-        for (w, shown), r in zip(det, res):
-            ctx.count('determinism-hashseed', nontrivial=False, hashseed=sd)
+        for k, (w, shown) in enumerate(sweep):
+            r, order = res[2 * k], res[2 * k + 1]
+            ctx.count('determinism-hashseed' if shown is not None else 'determinism-tie-corpus', nontrivial=False, hashseed=sd)
+            if shown is None:
+                # corpus case: the in-process result is the reference
+                if k not in ref:
+                    try:
+                        ref[k] = (fc.show_tree(fc.mk(w['g'], w['lexer'], 'resolve', w['mode']).parse(w['text'])), sd, order)
+                    except Exception as e:   # noqa
+                        ref[k] = ('EXC ' + type(e).__name__, sd, order)
+                shown = ref[k][0]
+            elif k not in ref:
+                ref[k] = (shown, sd, order)
             if r != shown:
                 ctx.violation('determinism:hashseed', dict(w, hashseed=sd, expected=shown), True,
                               'PYTHONHASHSEED=%d returned %r, in-process %r' % (sd, r, shown))
+            elif order != ref[k][2]:
+                # internal observation point, stricter than the resolved tree: the order of the packed children of
+                # every symbol node (insertion order and `children` order) of the exported forest
+                ctx.violation('determinism:packed-order', dict(w, kind='order', hashseeds=[ref[k][1], sd],
+                                                               no_longer_checks='packed children order across hash seeds'),
+                              False, 'the packed children of some symbol node are ordered differently under '
+                              'PYTHONHASHSEED=%d and %d (the resolved tree agrees)' % (ref[k][1], sd))
     ctx.extra['hash_seeds'] = seeds
 
 
@@ -309,6 +352,10 @@ def replay(ctx, case):
     w = case.get('witness', case)
     if 'g' not in w:
         return False
+    if w.get('kind') == 'order':
+        outs = [fc.run_in_subprocess([dict(g=w['g'], amb='order', lexer=w['lexer'], prio=w['mode'], text=w['text'])], sd)[0]
+                for sd in range(4)]
+        return any(o != outs[0] for o in outs)
     if 'hashseed' in w:
         res, err = fc.run_in_subprocess([dict(g=w['g'], amb='resolve', lexer=w['lexer'], prio=w['mode'], text=w['text'])],
                                         w['hashseed'])
